@@ -704,10 +704,13 @@ def _shard(a):
     return res
 
 
-def build(ctx):
-    objs = ctx.builder.lib('asan', SRCS)
-    return ctx.builder.driver('c15', 'asan', ['c15_parsers.c'], objs, wraps=WRAPS,
-                              libs=('-lm',))
+def build(ctx, opt=None):
+    """ASan+UBSan build; opt='-O0' gives the second build in which gcc keeps
+    every load of the source (at -O1 it may drop or reorder a stray read)."""
+    extra = (opt,) if opt else ()
+    objs = ctx.builder.lib('asan', SRCS, extra=extra)
+    return ctx.builder.driver('c15' + (opt or ''), 'asan', ['c15_parsers.c'], objs, wraps=WRAPS,
+                              libs=('-lm',), extra=extra)
 
 
 def fallback_records():
@@ -883,6 +886,13 @@ def run(ctx):
     n = core.NCPU
     res = core.pmap(_shard, [(exe, ctx.tmp, ctx.seed, ctx.tier, i, n, records) for i in range(n)])
     core.merge(ctx, res)
+    # the quick-size corpus once more through an -O0 build of library + driver
+    exe0 = build(ctx, '-O0')
+    res0 = core.pmap(_shard, [(exe0, ctx.tmp, ctx.seed, 'quick', i, n, records) for i in range(n)])
+    ctx.count('executions_in_O0_build', sum(r['evals'] for r in res0))
+    for r in res0:
+        r['stats'] = {}         # path counters describe the main pass only
+    core.merge(ctx, res0)
     byop = {}
     for r in res:
         for s in r['samples']:
@@ -896,11 +906,14 @@ def run(ctx):
         # a deterministic sample of the generated corpus for the extra passes
         sample = []
         us = units('quick')
-        for k in range(0, len(us), 3):
+        vsample = []
+        for k in range(0, len(us)):
             cs = unit_cases(ctx.seed, us[k], records)
-            sample += [c['line'] for c in cs[::7]]
+            if k % 3 == 0:
+                sample += [c['line'] for c in cs[::7]]
+            vsample += [c['line'] for c in cs[k % 5::5]]
         run_fuzz(ctx, sample)
-        run_valgrind(ctx, sample[::2])
+        run_valgrind(ctx, vsample)
     ctx.cov['rule'] = (
         'cases = (parser, input bytes) generated by Python: every prefix of generated valid JSON objects '
         '(nesting <= 6, escapes, \\u, whitespace everywhere) and of hand-written broken documents, byte mutations; '
@@ -911,9 +924,11 @@ def run(ctx):
         'hostile namelen/family; key and passphrase files with lines around 1024/2048 bytes, NUL/CR/CRLF/no EOL; '
         'hostile argv through two GETOPT_* tables. '
         'non-trivial = the input is not a valid document (json.loads / strict base-64 / generator flag) or the '
-        'driver reported an error return path; distinct = 64-bit hash of (parser, arguments, input)' % NUM_INST)
+        'driver reported an error return path; distinct = 64-bit hash of (parser, arguments, input); '
+        'evaluations = executions (the quick-size corpus runs in two builds, -O1 and -O0)' % NUM_INST)
     ctx.cov['sanitizers'] = ('gcc -fsanitize=address,undefined (nonnull-attribute off), inputs and outputs in '
-                             'exact-size heap blocks, per-input SIGALRM watchdog')
+                             'exact-size heap blocks; the quick-size corpus also through an -O0 build; per-input CPU-time watchdog '
+                             '(5 s, SIGPROF) with a wall-clock alarm behind it')
     ctx.assumptions += [
         'host-name forms of sock_resolve are refused by the interposed getaddrinfo (EAI_NONAME) unless they are a '
         'numeric IPv4 literal with a numeric service; what libc does inside getaddrinfo/inet_pton/strto* is trusted',
